@@ -556,7 +556,18 @@ def _(run, o):
     return (lambda: h.force_updated_at("yesterday")), None
 
 
-CELL_KEYS = sorted(CELLS)
+# Cells whose call is accepted by design (or at least not refused) on the pinned tree: C12 judges
+# refused calls only, and an accepted invalid call ends the run (the model cannot follow it), so
+# generating them only wastes runs.  They stay in the table (a replay may name them) and are
+# reported in evidence as "accepted_not_refused".
+ACCEPTED_NOT_REFUSED = {
+    ("create_block", "empty_name"): "File.create_block('') auto-names the block with a fresh UUID",
+    ("create_section@file", "empty_name"): "File.create_section('') auto-names the section with a fresh UUID",
+    ("create_data_array", "unsupported_dtype:complex"): "complex data is stored (h5py compound type)",
+    ("data", "append:axis_out_of_range"): "append(axis >= rank) is not refused (overwrites in place) - outside C12",
+    ("dimension", "link:negative_index"): "a second negative index is rejected only for some ranks",
+}
+CELL_KEYS = sorted(k for k in CELLS if k not in ACCEPTED_NOT_REFUSED)
 
 
 def full_snapshot(run):
